@@ -315,5 +315,5 @@ def parts(tier):
     strat = (lambda: _scenario().map(lambda c: dict(c, real_every=23))) if quick else \
         (lambda: _scenario().map(lambda c: dict(c, torn=True, real_every=7)))
     return [HypPart(name="scenarios", check=check_scenario, strategy=strat,
-                    examples=2 if quick else 12, seconds=40 if quick else 900),
+                    examples=2 if quick else 12, seconds=40 if quick else 600),
             EnumPart(name="crash", check=check_crash, items=lambda: [], exhaustive=False)]
